@@ -119,7 +119,7 @@ Definition deliteral (b : bval) : bval :=
   match b with
   | VKnown o => VTyped (class_of o)
   | VTuple _ => VTyped CTuple
-  | VGen GSeqPat => VTyped CSequence   (* unannotate *)
+  | VGen g => VTyped (gen_cls g)   (* unannotate; after the C02 repair every GenericValue is compared by its class *)
   | _ => b
   end.
 
